@@ -103,7 +103,7 @@ async def _primitive_ops(sim: Sim, rng: random.Random, count: int):
         if not steps:
             break
         kind = rng.choice(["set_state", "set_state", "hold", "release", "add_source", "add_dyn", "del_source",
-                           "file_state", "file_state", "detach", "reattach"])
+                           "file_state", "file_state", "detach", "reattach", "detach_file"])
         rec = {"op": kind, "before": before}
         try:
             async with sim.db:
@@ -166,6 +166,12 @@ async def _primitive_ops(sim: Sim, rng: random.Random, count: int):
                     s = rng.choice(steps)
                     Step(sim.wf, s["key"], s["label"]).detach()
                     rec["args"] = [s["key"]]
+                elif kind == "detach_file":
+                    if not files:
+                        continue
+                    f = rng.choice(files)
+                    File(sim.wf, f["key"], f["label"]).detach()
+                    rec["args"] = [f["key"]]
                 elif kind == "reattach":
                     det = [x for x in steps if x["detached"] and x["creator"] is None]
                     att = [x for x in steps if x["creator"] is not None or x["label"] == "./plan.py"]
@@ -331,6 +337,18 @@ def correspondence(ctx):
                     checks.append(f"match release_step {gb} {k} with Some g' => graph_eqb g' {ga} | None => false end")
                 descr.append((op, hi, ei))
                 ctx.case((op, repr(before), k), True)
+            elif op in ("start", "mark_pending") and "rejected" not in ev:
+                # a composite operation replayed as a sequence of model primitives
+                k = ev["args"]["step"]
+                seq = M.decompose("reset_for_rerun" if op == "start" else "mark_step_pending", before, k)
+                gb, ga = M.to_coq(before), M.to_coq(after)
+                # the sequence lands on the real tables, and every primitive is applied where the side
+                # condition of its flag-soundness theorem holds (run_ok_b)
+                checks.append(f"let gb := {gb} in let sq := {seq} in run_ok_b gb sq && "
+                              f"match run_prims gb sq with Some g' => graph_eqb g' {ga} | None => false end")
+                descr.append(("composite:" + op, hi, ei))
+                ctx.count("composite." + op)
+                ctx.case(("composite", op, repr(before), k), seq != "[]")
             elif op == "revert":
                 gb, ga = M.to_coq(before), M.to_coq(after)
                 labels = {f["label"]: f["key"] for f in before["files"]}
@@ -400,6 +418,8 @@ def _prim_term(rec):
         return f"graph_eqb (set_file_state {gb} {a[0]} {a[1]} {M.cbool(h)}) {ga}"
     if op == "detach":
         return f"graph_eqb (detach_step {gb} {a[0]}) {ga}"
+    if op == "detach_file":
+        return f"graph_eqb (detach_file {gb} {a[0]}) {ga}"
     if op == "reattach":
         return f"graph_eqb (reattach_step {gb} {a[0]} {a[1]} {M.cbool(a[2])}) {ga}"
     return None
@@ -473,6 +493,22 @@ def _upstream_root(v, root, key):
     return None
 
 
+def _side_conditions(snap):
+    """The hypotheses of C10_detach/reattach_preserves_FlagInv on a real snapshot: node ids are not
+    shared between step and file rows; a file below a step in the creator forest has no producer
+    edge from outside that step's subtree. Returns a description of a violation or None."""
+    step_keys = {s["key"] for s in snap["steps"]}
+    file_keys = {f["key"] for f in snap["files"]}
+    if step_keys & file_keys:
+        return f"node ids shared by step and file rows: {sorted(step_keys & file_keys)}"
+    for s in snap["steps"]:
+        sub = _below(snap, s["key"]) | {s["key"]}
+        for d in snap["deps"]:
+            if d["snk"] in sub and d["snk"] in file_keys and d["src"] not in sub:
+                return f"file {d['snk']} below step {s['key']} has a producer edge from {d['src']} outside the subtree"
+    return None
+
+
 def oracle(ctx):
     hs = histories(ctx)
     t0 = time.time()
@@ -499,6 +535,12 @@ def oracle(ctx):
                 vb, vm = M.View(before), M.View(ev["after_meta"])
                 shapes.append(vm.shape())
                 ctx.case(("oracle-tick", repr(ev["after_meta"]), ev["choice"]), True)
+                sc = _side_conditions(before)
+                ctx.count("side_conditions_checked")
+                if sc is not None:
+                    fail("side-condition:detach-reattach-hypothesis", "side-condition",
+                         "a hypothesis of C10_detach/reattach_preserves_FlagInv does not hold on a real snapshot: " + sc,
+                         {**where, "before": before})
                 # 1. every possibly stale value is flagged when the decision is taken
                 viol_b = _violations(vb)
                 for col, k in sorted(viol_b):
